@@ -376,6 +376,23 @@ def rotation_misc_check(ctx, c, outs):
         if not isinstance(P, R) or not np.array_equal(P.improper, want) or not same_rot(P.data, R1.data, 1e-15):
             return (f"Rotation * {np.asarray(fac).tolist()} has improper flags {np.asarray(P.improper).tolist()} (expected "
                     f"{np.asarray(want).tolist()}) or changed its quaternions")
+    # the same rotations seen as another class (Orientation(R), Misorientation(R), Orientation(Misorientation(R)),
+    # Rotation(Orientation(R))): same improper flags, same action on vectors, same flags under ~ and products
+    vv = V(np.array([0.3, -1.2, 2.0]))
+    base_act = (R1 * vv).data
+    for label, conv in (("Orientation(R)", lambda r: O(r)), ("Misorientation(R)", lambda r: M(r)),
+                        ("Orientation(Misorientation(R))", lambda r: O(M(r))), ("Rotation(Orientation(R))", lambda r: R(O(r))),
+                        ("Misorientation(Orientation(R))", lambda r: M(O(r)))):
+        X = conv(R1)
+        if not np.array_equal(np.asarray(X.improper), np.asarray(R1.improper)):
+            return (f"{label} has improper flags {np.asarray(X.improper).tolist()} but the rotation has "
+                    f"{np.asarray(R1.improper).tolist()}")
+        if not close((X * vv).data, base_act, 1e-12):
+            return f"{label} * v = {np.asarray((X * vv).data).tolist()} but R * v = {base_act.tolist()} (flags {np.asarray(R1.improper).tolist()})"
+        if not np.array_equal(np.asarray((~X).improper), np.asarray(R1.improper)):
+            return f"~{label} has improper flags {np.asarray((~X).improper).tolist()}, expected {np.asarray(R1.improper).tolist()}"
+        if not np.array_equal(np.asarray(X.outer(R2).improper), np.logical_xor.outer(R1.improper, R2.improper)):
+            return f"{label}.outer(R2): improper flags are not the parity of the operands' flags"
     try:
         R1 * 2
         return "Rotation * 2 is accepted (only +-1 are)"
